@@ -4,7 +4,7 @@
    every key type whose comparison is a strict weak order (SWO), hence for all six Go tree types (C11). *)
 From Coq Require Import ZArith NArith List Bool.
 From GB Require Import Model Spec Inv Order OrderProof SearchProof SpecLaws InvProof SearchScanProof
-     UpsertProof DeleteProof HistoryProof KeyOrders KnownFindings Conc GI LockInv LockProof ConcProps Frame FrameInv FrameProof SoloProof CInv CIDef NoDeadlock Lin LinDef Final.
+     UpsertProof DeleteProof HistoryProof KeyOrders KnownFindings Conc GI LockInv LockProof ConcProps Frame FrameInv FrameProof SoloProof CInv CIDef NoDeadlock Lin LinDef Final Footprint.
 Import ListNotations.
 Open Scope nat_scope.
 
@@ -440,3 +440,23 @@ Theorem C03_linearizable :
   lin_step_ok ltb order (iexec ltb order (iinit progs) sched) me.
 Proof. exact final_linearizable. Qed.
 Print Assumptions C03_linearizable.
+
+(* C10: in every reachable state, a thread inside Search / NewScanner / Insert / Update holds nothing, or the tree
+   mutex only, or one node, or a node and one of its children (only while it waits for the right sibling it has
+   just created by splitting that child) -- never anything above; a resting cursor, a hopping cursor and a
+   thread inside an Update callback hold exactly one leaf and not the tree mutex *)
+Theorem C10_parent_child_footprint :
+  forall (K V : Type) (ltb : K -> K -> bool), SWO ltb -> forall order, Nat.even order = true -> 4 <= order ->
+  forall (progs : list (tid * list (cop K V))) sched t th, NoDup (map fst progs) ->
+  let s := fst (exec ltb order (init_st progs) sched) in
+  get_thread t (ths s) = Some th ->
+  match tpc th with
+  | InsWantSplitRight _ p c _ => Permutation.Permutation (held_by t (lk s)) [p; c] /\ is_child_of K V c p (tr s) /\ tm s <> Some t
+  | InsWantChild _ p _ _ | SeaWantChild _ p _ => Permutation.Permutation (held_by t (lk s)) [p] /\ tm s <> Some t
+  | UpdCallback _ l _ _ | CurRest l _ _ _ | CurWantNext l _ _ _ => Permutation.Permutation (held_by t (lk s)) [l] /\ tm s <> Some t
+  | InsWantRootRight _ l _ => Permutation.Permutation (held_by t (lk s)) [l]
+  | Idle | WantT _ | WantRoot _ _ => held_by t (lk s) = []
+  | _ => True
+  end.
+Proof. exact footprint_parent_child. Qed.
+Print Assumptions C10_parent_child_footprint.
